@@ -90,3 +90,13 @@ Proof.
   all: try (intros l Hl; lia).
   all: destruct i as [|[|i]]; try lia; try reflexivity; simpl; lia.
 Qed.
+
+(* the cond_err guard: "nugget" accepted in exact mode; explicit values -- zeros included -- rejected in exact mode and
+   accepted (broadcast) otherwise *)
+Example ex_cond_err_guard :
+  set_cond_err Rops true 2 (1/2) None = Some [1/2; 1/2] /\
+  set_cond_err Rops true 2 (1/2) (Some (false, [0; 0])) = None /\
+  set_cond_err Rops true 2 (1/2) (Some (true, [0])) = None /\
+  set_cond_err Rops false 2 (1/2) (Some (true, [1/10])) = Some [1/10; 1/10] /\
+  set_cond_err Rops false 2 (1/2) (Some (false, [1/10; 0; 0])) = None.
+Proof. repeat split; reflexivity. Qed.
